@@ -359,3 +359,226 @@ class Retag:
 
     def floor(self, rule, n):
         pass
+
+
+# --------------------------------------------------------------------------
+# refactoring-robust primitives (used on the canonical form, see canon.py)
+# --------------------------------------------------------------------------
+
+
+def prov(fn: ast.AST, e: ast.AST, depth: int = 8) -> ast.AST:
+    """Provenance of a value: `e` with every singly-bound local replaced by its defining expression
+    (pure or not), recursively.  Names of temporaries and the number of intermediate steps vanish.
+    Use only to ask where a value comes from, never to duplicate evaluation."""
+    return au.expand(e, au.local_defs(fn), depth=depth)
+
+
+def prov_text(fn: ast.AST, e: ast.AST, depth: int = 8) -> str:
+    return ast.unparse(prov(fn, e, depth))
+
+
+def cond_match(fn: ast.AST, node: ast.AST, pattern: str, pol: bool = True, use_prov: bool = True) -> bool:
+    """`node` executes only when a test matching `pattern` has truth value `pol`."""
+    from .. import pat
+
+    for t, p in path_conditions(fn, node):
+        if p != pol:
+            continue
+        if pat.match(pattern, t) is not None:
+            return True
+        if use_prov and pat.match(pattern, prov(fn, t)) is not None:
+            return True
+    return False
+
+
+def calls_matching(fn: ast.AST, pattern: str, use_prov: bool = True):
+    """Calls in fn (nested functions excluded) whose text — as written, or with locals replaced by their
+    provenance — matches the pattern.  Yields (call, bindings)."""
+    from .. import pat
+
+    out = []
+    for c in au.calls_in(fn):
+        b = pat.match(pattern, c)
+        if b is None and use_prov:
+            b = pat.match(pattern, prov(fn, c))
+        if b is not None:
+            out.append((c, b))
+    return out
+
+
+def returns_of(fn: ast.AST):
+    return [n for n in au.walk_no_nested(fn) if isinstance(n, ast.Return)]
+
+
+def fails_unless(fn: ast.AST, pattern: str, noret=frozenset(), contains: bool = False) -> Optional[ast.If]:
+    """An `if` whose (positive, canonical) test matches `pattern` — or, with contains=True, has a conjunct /
+    sub-expression matching it — and whose else-branch ends by raising."""
+    from .. import pat
+
+    for n in au.walk_no_nested(fn):
+        if isinstance(n, ast.If) and n.orelse and au.raises(n.orelse, noret):
+            if pat.match(pattern, n.test) is not None:
+                return n
+            if contains and isinstance(n.test, ast.BoolOp) and isinstance(n.test.op, ast.And) and any(pat.match(pattern, v) is not None for v in n.test.values):
+                return n
+    return None
+
+
+def fails_if(fn: ast.AST, pattern: str, noret=frozenset(), contains: bool = False) -> Optional[ast.If]:
+    """An `if` whose test matches `pattern` (or, with contains=True, has a disjunct matching it) and whose body ends by raising."""
+    from .. import pat
+
+    for n in au.walk_no_nested(fn):
+        if isinstance(n, ast.If) and au.raises(n.body, noret):
+            if pat.match(pattern, n.test) is not None:
+                return n
+            if contains and isinstance(n.test, ast.BoolOp) and isinstance(n.test.op, ast.Or) and any(pat.match(pattern, v) is not None for v in n.test.values):
+                return n
+    return None
+
+
+def executes_before(fn: ast.AST, a: ast.AST, b: ast.AST) -> bool:
+    """Whenever `b` executes, `a` has executed before it (structural dominance on the canonical form):
+    `a` comes first in program order, every branch condition `a` is under also governs `b` (same test node,
+    same polarity), and `a` is not inside a loop, try body or handler that `b` is outside of."""
+    order = {id(n): k for k, n in enumerate(ast.walk_preorder(fn))} if hasattr(ast, "walk_preorder") else None
+    if order is None:
+        order = {}
+        k = 0
+        stack = [fn]
+        while stack:
+            n = stack.pop()
+            order[id(n)] = k
+            k += 1
+            stack.extend(reversed(list(ast.iter_child_nodes(n))))
+    if order.get(id(a), 1 << 30) >= order.get(id(b), -1):
+        return False
+    ca = {(id(t), p) for t, p in path_conditions(fn, a)}
+    cb = {(id(t), p) for t, p in path_conditions(fn, b)}
+    if not ca <= cb:
+        return False
+    par = au.parents(fn)
+
+    def scopes(n):
+        out = set()
+        while n in par:
+            p = par[n]
+            if isinstance(p, (ast.For, ast.While, ast.AsyncFor, ast.ExceptHandler, ast.ListComp, ast.DictComp, ast.SetComp, ast.GeneratorExp, ast.FunctionDef, ast.Lambda)):
+                out.add(id(p))
+            n = p
+        return out
+
+    return scopes(a) <= scopes(b)
+
+
+# --------------------------------------------------------------------------
+# propositional reasoning over path conditions (atoms = non-boolean sub-tests, by canonical text)
+# --------------------------------------------------------------------------
+
+
+def _atom_text(e: ast.AST) -> str:
+    if isinstance(e, ast.Compare) and len(e.ops) == 1 and isinstance(e.ops[0], (ast.Is, ast.Eq)):
+        a, b = sorted([ast.unparse(e.left), ast.unparse(e.comparators[0])])
+        return f"{a} {'is' if isinstance(e.ops[0], ast.Is) else '=='} {b}"
+    return ast.unparse(e)
+
+
+def _bool_eval(e: ast.AST, val: Dict[str, bool]) -> bool:
+    if isinstance(e, ast.BoolOp):
+        vs = [_bool_eval(v, val) for v in e.values]
+        return all(vs) if isinstance(e.op, ast.And) else any(vs)
+    if isinstance(e, ast.UnaryOp) and isinstance(e.op, ast.Not):
+        return not _bool_eval(e.operand, val)
+    if isinstance(e, ast.Compare) and len(e.ops) == 1 and isinstance(e.ops[0], (ast.IsNot, ast.NotEq, ast.NotIn)):
+        inv = {ast.IsNot: ast.Is, ast.NotEq: ast.Eq, ast.NotIn: ast.In}[type(e.ops[0])]
+        return not val[_atom_text(ast.Compare(e.left, [inv()], e.comparators))]
+    return val[_atom_text(e)]
+
+
+def _bool_atoms(e: ast.AST, out: Set[str]) -> None:
+    if isinstance(e, ast.BoolOp):
+        for v in e.values:
+            _bool_atoms(v, out)
+    elif isinstance(e, ast.UnaryOp) and isinstance(e.op, ast.Not):
+        _bool_atoms(e.operand, out)
+    elif isinstance(e, ast.Compare) and len(e.ops) == 1 and isinstance(e.ops[0], (ast.IsNot, ast.NotEq, ast.NotIn)):
+        inv = {ast.IsNot: ast.Is, ast.NotEq: ast.Eq, ast.NotIn: ast.In}[type(e.ops[0])]
+        out.add(_atom_text(ast.Compare(e.left, [inv()], e.comparators)))
+    else:
+        out.add(_atom_text(e))
+
+
+def conds_imply(premises: List[Tuple[ast.AST, bool]], conclusion: List[Tuple[ast.AST, bool]], max_atoms: int = 12) -> Optional[bool]:
+    """Do the premises [(test, polarity)] propositionally imply every conclusion?  Atoms are the non-boolean
+    sub-tests, identified by canonical text (so `a is b` and `b is a` are one atom).  None when too many atoms."""
+    import itertools
+
+    atoms: Set[str] = set()
+    for t, _p in list(premises) + list(conclusion):
+        _bool_atoms(t, atoms)
+    names = sorted(atoms)
+    if len(names) > max_atoms:
+        return None
+    for bits in itertools.product((False, True), repeat=len(names)):
+        val = dict(zip(names, bits))
+        if all(_bool_eval(t, val) == p for t, p in premises) and not all(_bool_eval(t, val) == p for t, p in conclusion):
+            return False
+    return True
+
+
+def parse_cond(text: str) -> ast.AST:
+    return ast.parse(text, mode="eval").body
+
+
+def precedes(fn: ast.AST, a: ast.AST, b: ast.AST) -> bool:
+    """`a` comes before `b` in program order and the two are not in mutually exclusive branches."""
+    order = {}
+    k = 0
+    stack = [fn]
+    while stack:
+        n = stack.pop()
+        order[id(n)] = k
+        k += 1
+        stack.extend(reversed(list(ast.iter_child_nodes(n))))
+    if order.get(id(a), 1 << 30) >= order.get(id(b), -1):
+        return False
+    ca = {id(t): p for t, p in path_conditions(fn, a)}
+    cb = {id(t): p for t, p in path_conditions(fn, b)}
+    return not any(k in cb and cb[k] != p for k, p in ca.items())
+
+
+def raising_leaves(fn: ast.AST, noret=frozenset()) -> List[ast.stmt]:
+    out = []
+    for n in au.walk_no_nested(fn):
+        if isinstance(n, ast.Raise):
+            out.append(n)
+        elif isinstance(n, ast.Expr) and isinstance(n.value, ast.Call):
+            nm = au.call_name(n.value)
+            if nm in noret or nm.split(".")[-1] in noret:
+                out.append(n)
+    return out
+
+
+def raises_under(fn: ast.AST, assumptions: List[Tuple[str, bool]], noret=frozenset()) -> bool:
+    """Some raising statement of fn is reached whenever the assumptions [(test text, truth value)] hold
+    (propositionally, over the path conditions of the canonical form)."""
+    prem = [(parse_cond(t), p) for t, p in assumptions]
+    for r in raising_leaves(fn, noret):
+        if conds_imply(prem, path_conditions(fn, r)) is True:
+            return True
+    return False
+
+
+def cond_args(fn: ast.AST, node: ast.AST, pattern: str, pol: bool = True):
+    """Bindings of the first path condition of `node` (with the given polarity) that matches `pattern`."""
+    from .. import pat
+
+    for t, p in path_conditions(fn, node):
+        if p != pol:
+            continue
+        b = pat.match(pattern, t)
+        if b is None:
+            b = pat.match(pattern, prov(fn, t))
+        if b is not None:
+            return b
+    return {}
